@@ -1,20 +1,20 @@
 SPECIFICATION Spec
 CONSTANTS
   Threads = {1, 2, 3}
-  Prog <- ProgClr1
-  HashOf <- HashId
-  InitKeys <- Init1
+  Prog <- ProgOvf
+  HashOf <- HashSame
+  InitKeys <- Init2
   N0 = 2
   DCAP = 2
   MaxNodes = 10
-  MaxTabs = 2
-  STRIDE = 1
+  MaxTabs = 3
+  STRIDE = 4
   MAXRES = 100
   STAMPCHECK = TRUE
   ACSTAMPCHECK = TRUE
   TRAVOFF = 0
   RETAINCHECK = TRUE
-  TT = 100
+  TT = 2
   MTC = 100
 INVARIANTS Linearizable NoDeadlock ResizeSafe QuiescentOK ReadersNeverBlock IterWeak GhostOK
 PROPERTY NeverShrinks
